@@ -102,3 +102,38 @@ Proof. exact pp_pairing_sequential. Qed.
 Print Assumptions C04_pairing_sequential.
 Theorem C04_legal_is_byte_legal : forall xl ops, pk_legal xl ops = true -> pk_blegal xl ops = true.
 Proof. exact pk_legal_blegal. Qed.
+
+(* ==== ANSWERS WITHOUT A BODY, AND INTERIM RESPONSES (PSegResNb*.v, PSegRes100*.v), any chunking of both directions ====
+   C04_no_body_answer_then_next: exchange 1 is answered without a body -- any answer to HEAD (whatever Content-Length / Transfer-Encoding it carries), or a 1xx
+   (not an interim 100) / 204 / 304 answer without Content-Length and Transfer-Encoding --, exchange 2 has a Content-Length body; both requests pipelined, both
+   answers in ANY chunking (chunks spanning the boundary): two transactions, the bytes after the empty line of answer 1 are the response of transaction 2, not a
+   body of transaction 1. (204 / 304 / 1xx answers that DO carry Content-Length or Transfer-Encoding are given a body on purpose -- "browsers interpret content
+   sent by the server as such", htp_response.c -- and are outside the premise; Examples nb_refuted_204_cl / nb_refuted_304 in PSegResNbThm.v record what happens.)
+   C04_interim_100_then_final: k >= 0 interim "100 Continue" responses (with or without fields) followed by the final response with a Content-Length body, in ANY
+   chunking of their concatenation: ONE transaction, reporting protocol, status, reason, header table and lengths of the FINAL response, COMPLETE. *)
+Require Import Htp.Model.Base Htp.Model.MBstr Htp.Model.MConnTypes Htp.Model.MTxCommon Htp.Model.MResLine Htp.Model.MTxRes.
+Require Import Htp.Model.MReq Htp.Model.MRes Htp.Model.MConnp.
+Require Import Htp.Spec.SWire Htp.Proof.PWire Htp.Proof.PWireHdr Htp.Proof.PWireBlock Htp.Proof.PWireConn Htp.Proof.PWireExch.
+Require Import Htp.Proof.PWireRun Htp.Proof.PWirePres Htp.Proof.PWireGlue Htp.Proof.PSeg Htp.Proof.PSegLine Htp.Proof.PSegHdr Htp.Proof.PSegGen Htp.Proof.PSegRun.
+Require Import Htp.Proof.PSegFold Htp.Proof.PSegPipe Htp.Proof.PSegRes Htp.Proof.PSegResLine Htp.Proof.PSegResHdr Htp.Proof.PSegResGen Htp.Proof.PSegResRun Htp.Proof.PSegResReq Htp.Proof.PSegResThm Htp.Proof.PSegResCanon.
+Require Import Htp.Proof.PPair Htp.Proof.PPairLine Htp.Proof.PPairHdr Htp.Proof.PPairRun Htp.Proof.PPairOne Htp.Proof.PPairFin Htp.Proof.PPairA Htp.Proof.PPairReq Htp.Proof.PPairB Htp.Proof.PPairThm Htp.Proof.PPairThmB.
+Require Import Htp.Proof.PSegResNb Htp.Proof.PSegResNbThm Htp.Proof.PSegRes100.
+Require Import Htp.Proof.PSegRes100Thm.
+Theorem C04_no_body_answer_then_next : forall cb g x1 x2 (qchunks schunks : list bytes),
+  wr_all_ok cb -> g_allow_space_uri g = false -> (g_max_tx g = 0 \/ 2 < g_max_tx g)%nat ->
+  nb_xc_ok g x1 = true -> pp_xc_ok g x2 = true ->
+  Forall (fun c => c <> []) qchunks -> concat qchunks = wr_request_wire (xq x1) ++ wr_request_wire (xq x2) ->
+  Forall (fun c => c <> []) schunks -> concat schunks = nb_xwire x1 ++ pp_xwire x2 -> pp_f1_free [x2] schunks = true ->
+  exists k1 fl1 k2 fl2, c_txs (fst (cp_run cb g connp_new (OpOpen :: map OpReqData qchunks ++ map OpResData schunks))) =
+    [pr_slot g (nb_tfin (nb_ex_of g k1 fl1 x1)); pr_slot g (pp_tfin (pp_ex_of g k2 fl2 x2))].
+Proof. exact nb_pairing. Qed.
+Print Assumptions C04_no_body_answer_then_next.
+Theorem C04_interim_100_then_final : forall cb g rq (sts : list i_stage) rF bodyF (qchunks schunks : list bytes),
+  wr_all_ok cb -> g_allow_space_uri g = false -> g_tx_auto_destroy g = false -> (g_max_tx g = 0 \/ 1 < g_max_tx g)%nat -> sg_req_ok g rq = true ->
+  i100_premise g rq sts rF (sr_cuts_whole rF) bodyF -> i100_clean rq sts -> wr_block_ok (wp_fields rF) = true ->
+  Forall (fun c => c <> []) qchunks -> concat qchunks = wr_request_wire rq ->
+  Forall (fun c => c <> []) schunks -> concat schunks = is_wires sts ++ wr_response_wire rF ++ bodyF ->
+  pp_f1_free [mk_pp_xc rq rF (sr_cuts_whole rF) bodyF] schunks = true ->
+  exists t, c_txs (fst (cp_run cb g connp_new (OpOpen :: map OpReqData qchunks ++ map OpResData schunks))) = [Some t] /\ sr_reported t rF bodyF.
+Proof. exact i100_reported. Qed.
+Print Assumptions C04_interim_100_then_final.
